@@ -118,6 +118,49 @@ func raceScenario(p raceParams) func() {
 			c.Node = 1
 			run("a", func() { w2.Invoke(c) })
 			run("close", func() { w2.Mgr.Close() })
+		case "correctable-observers":
+			// several goroutines observe one correctable while the call's goroutine publishes and completes
+			c := w.NewCall("CorrectableStream")
+			c.Verdict = func(inv *world.QFInv) { inv.Level = len(c.QF) + 1; inv.Quorum = len(c.QF) >= 2 }
+			w.Invoke(c)
+			for i := 0; i < 2; i++ {
+				run(fmt.Sprintf("obs%d", i), func() {
+					world.CorrGet(c.Corr)
+					ch := c.Corr.Watch(2)
+					world.CorrRawGet(c.Corr)
+					mc.Select(true, mc.RecvCase(ch))
+					mc.Recv(c.Corr.Done())
+					world.CorrGet(c.Corr)
+				})
+			}
+		case "async-observers":
+			c := w.NewCall("QuorumCallAsync")
+			c.Verdict = func(inv *world.QFInv) { inv.Quorum = len(inv.Keys) >= 2 }
+			w.Invoke(c)
+			for i := 0; i < 2; i++ {
+				run(fmt.Sprintf("get%d", i), func() { c.Fut.Done(); world.AsyncGet(c.Fut); c.Fut.Done() })
+			}
+		case "pernode-custom":
+			run("a", call("QuorumCallCombo", 0, false))
+			run("b", call("QuorumCallAsyncCombo", 0, true))
+			run("c", call("CorrectableStreamCombo", 0, false))
+			run("d", call("MulticastPerNodeArg", 0, false))
+		case "reset-lasterr":
+			run("a", call("QuorumCall", 0, false))
+			run("fault", func() { w.FW.Reset(world.Addr(1)) })
+			run("b", call("GRPCCall", 1, false))
+			run("lasterr", func() {
+				for _, nd := range w.Mgr.Nodes() {
+					_ = nd.LastErr()
+				}
+			})
+		case "addnodes-during-calls":
+			run("a", call("QuorumCall", 0, false))
+			run("cfg", func() {
+				w.Mgr.NewConfiguration(w.Spec, w.Cfg.WithNewNodes(gorums.WithNodeList([]string{"127.0.0.1:9100"})))
+			})
+			run("b", call("Multicast", 0, false))
+			run("ids", func() { _ = w.Mgr.NodeIDs(); _, _ = w.Mgr.Node(1) })
 		case "server-streams":
 			run("a", call("CorrectableStream", 0, false))
 			run("b", call("CorrectableStream", 0, true))
@@ -132,7 +175,8 @@ func raceScenario(p raceParams) func() {
 
 func raceInstances(tier string) []Instance {
 	var out []Instance
-	for _, wl := range []string{"calls", "calls-cancel", "config-vs-nodes", "and-shared", "restart", "close", "down-close", "server-streams"} {
+	for _, wl := range []string{"calls", "calls-cancel", "config-vs-nodes", "and-shared", "restart", "close", "down-close", "server-streams",
+		"correctable-observers", "async-observers", "pernode-custom", "reset-lasterr", "addnodes-during-calls"} {
 		for _, buf := range []uint{0, 1} {
 			if buf == 1 && !thorough(tier) && wl != "close" && wl != "calls" {
 				continue
@@ -150,7 +194,7 @@ func raceInstances(tier string) []Instance {
 
 func init() {
 	register(&Check{ID: "C15",
-		Rule: "8 concurrent workloads over one manager (all call types from three goroutines; calls with concurrent cancellations; configuration creation that re-sorts the node pool concurrently with Nodes/NodeIDs/Size and calls; And/Except from two goroutines on shared operands; crash+restart during traffic; Close during traffic with LastErr/Latency readers; Close racing with the sender's re-dial of a down node; released server handlers streaming concurrently) x send buffer {0,1}, explored under the -race build within the deviation bound; ThreadSanitizer observes every schedule with the scheduler's hand-offs hidden (RaceDisable) and the modelled primitives' happens-before edges announced (RaceAcquire/RaceRelease); oracle: no race report whose two stacks both contain a frame of the library or its generated code; an outcome is the instance (plus each distinct report signature)",
+		Rule: "13 concurrent workloads over one manager (all call types from three goroutines; calls with concurrent cancellations; configuration creation that re-sorts the node pool concurrently with Nodes/NodeIDs/Size and calls; And/Except from two goroutines on shared operands; crash+restart during traffic; Close during traffic with LastErr/Latency readers; Close racing with the sender's re-dial of a down node; released server handlers streaming concurrently; several observers of one correctable / one future; per-node + custom-type variants; stream reset with LastErr readers; WithNewNodes during calls) x send buffer {0,1}, explored under the -race build within the deviation bound; ThreadSanitizer observes every schedule with the scheduler's hand-offs hidden (RaceDisable) and the modelled primitives' happens-before edges announced (RaceAcquire/RaceRelease); oracle: no race report whose two stacks both contain a frame of the library or its generated code; an outcome is the instance (plus each distinct report signature)",
 		Gen:  raceInstances,
 		Assumptions: []string{"interleaving happens at visible operations; the race detector sees the accesses between them on every explored schedule", "TSan keeps a bounded access history per memory cell", "reports with no library frame on one side (harness bookkeeping) are not counted"},
 	})
